@@ -480,9 +480,10 @@ func genC09w(m *M, budget int) {
 			copy(arr[:], f.wide48())
 			var out scalar.MontgomeryDomainFieldElement
 			scalar.HashToFieldElement(&out, arr)
-			s := secp256k1.NewScalar()
-			copy(s.S[:], out[:])
-			f.emitF("NWide", kv{"data", arr[:]}, kv{"ret", s.Encode()})
+			// read the reduced value back through the internal package's own conversion (no public Scalar involved)
+			var nm scalar.NonMontgomeryDomainFieldElement
+			scalar.FromMontgomery(&nm, &out)
+			f.emitF("NWide", kv{"data", arr[:]}, kv{"ret", scalar.NonMontgomeryToBytes(&nm)})
 		}
 	}
 }
